@@ -34,7 +34,7 @@ CLAIMED = {
          'Decides the listed obligations; does not decide termination, absence of all undefined behaviour or assertion freedom.',
          'DESIGN.md §4 C05'),
  'C06': ('boundary-partition partial evaluation of encoder width ladders; decoding of the written header with the specification tables used for the decoders',
-         'Static ladder check: for every constant an encoder ladder variable is compared with, the points K-1, K, K+1 and the type extremes are partially evaluated; the marker/initial byte, payload conversion type and converted value written must decode (per the specification table the decoder is verified against in C07) to the same value or length, and every point must write a header or store an error. Covers MessagePack, CBOR and UBJSON integer and length ladders for every rung.',
+         'Static ladder check: for every constant an encoder ladder variable is compared with, the points K-1, K, K+1 and the type extremes are partially evaluated; the marker/initial byte, payload conversion type and converted value written must decode (per the specification table the decoder is verified against in C07) to the same value or length, and every point must write a header or store an error. Covers MessagePack, CBOR and UBJSON integer and length ladders for every rung. Also: bin/ext ladders and null/bool/double markers of MessagePack, and every BSON element type byte with its payload width (R06.bson).',
          'Decides exhaustiveness, non-truncation and marker/width agreement of the ladders; does not decide equality of decoded and original documents, bigint or decimal128 conversions.',
          'DESIGN.md §4 C06'),
  'C09': ('tagged-union kind-set dataflow over the CFG of every basic_json member (cast typestate, unreachable exhaustiveness), compare() pair-matrix symmetry by partial evaluation, sort/unique discipline of sorted objects',
@@ -78,7 +78,7 @@ CLAIMED = {
          'Decides the overflow-guard and event-kind clauses; does not decide correct rounding of from_chars/strtod, Grisu3 or bigint arithmetic (numerical; no sound static argument in reach here).',
          'DESIGN.md §4 C04'),
  'C08': ('must-pass-through (end_value on every non-error path of every value writer), exact two-sided count comparison at container close, nesting guards and ladder rules shared with C10/C06',
-         'Static path rules over the CBOR, MessagePack and UBJSON encoders: every value-emitting visit_* reaches end_value() unless it stores an error or throws; container closes compare the count with the declared length in both directions with exact operands; length-less opens are rejected where the format has no indefinite containers; every open passes the nesting guard. Necessary conditions of well-formed counted containers for every event sequence. Also shared: no raw control character in JSON string literals (R01.1) and CBOR stringref eligibility per the specification ladder (R06.3).',
+         'Static path rules over the CBOR, MessagePack and UBJSON encoders: every value-emitting visit_* reaches end_value() unless it stores an error or throws; container closes compare the count with the declared length in both directions with exact operands; length-less opens are rejected where the format has no indefinite containers; every open passes the nesting guard. Necessary conditions of well-formed counted containers for every event sequence. Also shared: no raw control character in JSON string literals (R01.1) and CBOR stringref eligibility per the specification ladder (R06.3). The encoder width ladders and BSON type bytes (R06.*) are shared: a header that announces another width or family than what follows is not well-formed.',
          'Decides the count-bookkeeping clauses; does not decide that the bytes denote exactly the pushed data in general.',
          'DESIGN.md §4 C08'),
  'C11': ('set comparison of the per-dialect keyword registries with the draft vocabularies; name binding keyword -> factory method -> validator class; use of reporter.error results over the CFG',
